@@ -1,4 +1,5 @@
 """C10 - fix reporting is truthful and scan is read-only."""
+import json
 import hashlib
 import itertools
 import os
@@ -120,7 +121,8 @@ def fixable_ids():
 
 
 def _readonly(case):
-    argv, stdin = case
+    argv, stdin = case[0], case[1]
+    fault = case[2] if len(case) > 2 else None
     with Scratch("pv-c10r-") as d:
         tmpd, work = os.path.join(d, "tmp"), os.path.join(d, "w")
         os.makedirs(tmpd)
@@ -133,7 +135,11 @@ def _readonly(case):
         old = tempfile.tempdir
         tempfile.tempdir = tmpd
         try:
-            code, out, err = impl.run_cli(argv, cwd=work, stdin_text=stdin)
+            if fault is None:
+                code, out, err = impl.run_cli(argv, cwd=work, stdin_text=stdin)
+            else:
+                code, out, err = impl.run_cli(["--add-plugin", os.path.join(impl.PLUGDIR, "pv_fault.py")] + argv, cwd=work, stdin_text=stdin,
+                                              env={"PV_FAULT": json.dumps(fault), "PV_FAULT_FIX": "0", "PV_FAULT_ID": "zzx999"})
         finally:
             tempfile.tempdir = old
         after = tree_state(work, tmpd)
@@ -228,19 +234,24 @@ def run(ctx):
           (["extensions", "list"], None), (["extensions", "info", "front-matter"], None), (["version"], None), (["scan", "missing.md"], None),
           (["--stack-trace", "scan", "a.md"], None), (["--log-level", "DEBUG", "scan", "b.md"], None), (["-d", "md009", "scan", "a.md"], None),
           (["--return-code-scheme", "minimal", "scan", "."], None), (["scan", "-ae", ".txt", "."], None)]
+    # ... also when the run is cut short by a failing plug-in (with and without --continue-on-error)
+    for f in ({"cb": "token", "file": None, "nth": 1}, {"cb": "line", "file": None, "nth": 2}, {"cb": "start", "file": None, "nth": 1}):
+        ro += [(["scan-stdin"], "#  a\n\nb   \n", f), (["--continue-on-error", "scan-stdin"], "#  a\n\nb   \n", f), (["scan", "a.md", "b.md"], None, f),
+               (["--return-code-scheme", "minimal", "scan-stdin"], "a\n", f)]
     rres = impl.pmap(_readonly, ro, chunksize=2)
-    for (argv, stdin), (code, same, diff) in zip(ro, rres):
+    for case, (code, same, diff) in zip(ro, rres):
+        argv, stdin = case[0], case[1]
         ctx.count(1, "read-only")
         ctx.seen(argv)
         if not same:
-            ctx.violation("read-only", {"argv": argv, "stdin": stdin}, f"the command created, removed or modified files: {diff}", group="read-only")
+            ctx.violation("read-only", {"argv": argv, "stdin": stdin, "fault": case[2] if len(case) > 2 else None}, f"the command created, removed or modified files: {diff}", group="read-only")
     ctx.trusted += [
         "correspondence: Model/FixPass.v (vm_compute) fed with the pass-level facts printed by the project's own -x-fix-debug / -x-fix-file-debug switches (content before each pass, token fixes, FixLineRecords, temporary line file, 'Copy' line) vs the final bytes, the 'Fixed:' lines and the exit status",
         "read-only part: SHA-1 and mtime of every file in the working and temporary directories before/after each non-fixing command",
     ]
     return ctx.finish(
         level="proof",
-        rule="30 hand-picked + sampled repository-corpus and trigger documents, alone and in random sets of 2-3 files, both return-code schemes, with the pass-level debug output; the API (fix_path, fix_string) under both schemes; 18 non-fixing commands for the read-only part; non-trivial = a run that changed some file, or a read-only command; distinct by input",
+        rule="30 hand-picked + sampled repository-corpus and trigger documents, alone and in random sets of 2-3 files, both return-code schemes, with the pass-level debug output; the API (fix_path, fix_string) under both schemes; 18 non-fixing commands (and 12 of them cut short by a failing plug-in) for the read-only part; non-trivial = a run that changed some file, or a read-only command; distinct by input",
         assumptions=["runs that end with an application error are C15's business and are skipped here",
                      "'announced -> bytes differ' is not a theorem of the bookkeeping (a rule could register a fix that changes nothing): it is judged on the implementation only"],
     )
